@@ -8,4 +8,5 @@ MODULES = {
     'Slippage': 'slippage',
     'PosArith': 'position',
     'ValidatorChain': 'validator_chain',
+    'Reserve': 'reserve',
 }
